@@ -123,11 +123,11 @@ def gen_par(rng, reps):
     arrays = gen_arrays(rng)[:2]
     nb = rng.choice(BAKED_COUNTS)
     spare = rng.choice([0, 0, 1, 2])
-    slow_n = rng.choice([0, 1500, 3000, 3000])
+    slow_n = rng.choice([0, 300, 800, 800])
     cells = []
     for i in range(nb + spare):
         w = rng.choice(WORDS)
-        if slow_n and i < min(nb, 6) and (i < 2 or rng.random() < 0.5):
+        if slow_n and i < min(nb, 3):
             w = w + SLOW_REF * slow_n
         cells.append(w)
     arrays.append(cells)
@@ -254,7 +254,7 @@ def oracle(case, ans):
                 if sorted(rp["lines"]) != sorted(e[0] for e in exp):
                     wrong = [l for l in rp["lines"] if l not in [e[0] for e in exp]]
                     bad.append("op %d rep %d: %d concurrent calls of closure %d (%d baked-in arguments) started children with %s, expected one child each with %s" % (
-                        i, ri, len(exp), o["c"], case["closures"][o["c"]]["baked"]["len"], short(wrong or rp["lines"]), short([e[0] for e in exp])))
+                        i, ri, len(exp), o["c"], case["closures"][o["c"]]["baked"]["len"], short(wrong or rp["lines"], 500), short([e[0] for e in exp], 500)))
                 for g, e in enumerate(exp):
                     if rp["outs"][g] != e[1]:
                         bad.append("op %d rep %d: concurrent call %d handed back %s, expected %s (its own arguments)" % (i, ri, g, short(rp["outs"][g]), short(e[1])))
@@ -336,7 +336,10 @@ def par_terms(case, ans):
         pairs = [(g, g + 1) for g in range(0, len(extras) - 1, 2)]
         if len(extras) % 2:
             pairs.append((len(extras) - 1, 0))
-        for ri, rp in enumerate(ob.get("reps") or []):
+        reps = ob.get("reps") or []
+        for ri, rp in enumerate(reps):
+            if 0 < ri < len(reps) - 1:
+                continue        # the model sees the first and the last repetition (the oracle judges all of them)
             lines = list(rp["lines"])
             # attribute the children to the calls (the oracle has already judged the multiset)
             mine = {}
